@@ -802,6 +802,12 @@ func (c *Client) retry(ctx context.Context, command *proto.Command, nodeAddr str
 		if errOuter == nil {
 			break
 		}
+		// A timeout does not mean the remote node never received the command: it may
+		// still be executing it, or have executed it already. Unless the caller asked
+		// for retries, do not send the command again, or it could be executed twice.
+		if maxRetries <= 0 && errors.Is(errOuter, os.ErrDeadlineExceeded) {
+			return nil, nRetries, errOuter
+		}
 		nRetries++
 		stats.Add(numClientRetries, 1)
 
